@@ -35,6 +35,8 @@ type c11Result struct {
 	Points     int            `json:"max_points"`
 	ExtBlocks  int            `json:"ext_blocks"`
 	Outcomes   map[string]int `json:"outcomes"`
+	Observed   map[string]int `json:"observed,omitempty"`   // quiescent observations (scenarios with the sequential-reference oracle)
+	Sequential []string       `json:"sequential,omitempty"` // observations produced by the sequential orders
 	Viol       []c11Viol      `json:"viol"`
 	Nondet     string         `json:"nondeterminism,omitempty"`
 	Err        string         `json:"err,omitempty"`
@@ -86,7 +88,7 @@ func c11Collect(c *vlib.Ctx, keyPrefix string, names []string, results []vlib.Po
 		states += int64(n)
 		transitions += int64(n * res.Points)
 		c.Eval(int64(n))
-		c.Set("scenario:"+names[i], map[string]interface{}{"executions_per_bound": res.Executions, "completed_preemption_bound": res.Completed, "capped": res.Capped, "max_scheduling_points": res.Points, "outcomes": res.Outcomes, "threads_blocked_outside_model": res.ExtBlocks, "nondeterminism": res.Nondet})
+		c.Set("scenario:"+names[i], map[string]interface{}{"executions_per_bound": res.Executions, "completed_preemption_bound": res.Completed, "capped": res.Capped, "max_scheduling_points": res.Points, "outcomes": res.Outcomes, "observed_final_states": res.Observed, "sequential_final_states": res.Sequential, "threads_blocked_outside_model": res.ExtBlocks, "nondeterminism": res.Nondet})
 		if res.Capped {
 			c.Cap(fmt.Sprintf("%s: execution cap reached; preemption bound %d completed", names[i], res.Completed))
 		}
